@@ -3,7 +3,8 @@ specification's tables (contracts/oracle/types_spec.rs)."""
 import os
 import re
 
-from vlib.verus import VerusFile, Contract, Clause, sub, lit, rule, Undecided, bool_ge
+from vlib.verus import VerusFile, Contract, Clause, sub, lit, rule, Undecided, bool_ge, replace_arm
+from units import _tree
 
 NAME = "c05_types"
 ENGINE = "verus"
@@ -232,3 +233,5 @@ proof fn const_corr_table()
         for fn, ar, cspec, mspec in TYPE_RULES:
             vf.fn(TYPES, "impl:Type/fn:%s" % fn, qual="Type", props=PROPS, contract=type_contract(fn, ar, cspec, mspec))
     return vf
+
+
